@@ -19,7 +19,7 @@ for pid in props:
         subprocess.run(["git", "-C", "/repo", "worktree", "add", "--detach", wt, "HEAD"], check=True, capture_output=True)
     prior = []
     for m in sorted(glob.glob(f"/verif/seeded/{pid}-*/meta.json")):
-        prior.append(json.load(open(m)).get("breaks", "")[:400].replace("\n", " "))
+        prior.append(json.load(open(m)).get("breaks", "")[:300].replace("\n", " "))
     prior_txt = " ".join(f"({i + 1}) {t}" for i, t in enumerate(prior))
     txt = f"""You are helping test a verification effort for the Rust repository awslabs/metrique (crates for unit-of-work metrics: a #[metrics] proc macro, an Amazon EMF JSON formatter, a background writer queue, aggregation/histogram sinks). Your job is to write *seeded defects*: realistic source changes that BREAK one stated semantic property while the code still compiles and the existing test-suite still passes.
 
